@@ -207,6 +207,22 @@ func sortedKeyWalk(val *Term) (M, K *Term, ok bool) {
 		return nil, nil, false
 	}
 	M, K = val.Args[0].Args[0], val.Args[0].Args[1]
+	// the key list built in place: `for k := range M { ks = append(ks, k) }; sort.Strings(ks); for _, k := range ks { … M[k] … }` —
+	// every element of the list is a key of M (that every key is visited is the every-entry-imported rule's business)
+	if K.Op == "index" && len(K.Args) == 2 && K.Args[0].Op != "call" {
+		fromM := K.Args[0].Contains(func(x *Term) bool {
+			return x.Op == "range" && len(x.Args) == 1 && x.Args[0].Eq(M)
+		})
+		onlyAppends := true
+		K.Args[0].Walk(func(x *Term) {
+			if x.Op == "call" && !x.IsCall("builtin:append") {
+				onlyAppends = false
+			}
+		})
+		if fromM && onlyAppends {
+			return M, K, true
+		}
+	}
 	if K.Op != "index" || len(K.Args) != 2 || K.Args[0].Op != "call" || len(K.Args[0].Args) == 0 {
 		return nil, nil, false
 	}
